@@ -281,7 +281,10 @@ PLAYBACK_FOR_RE = re.compile(r"/// Check for `[^`]*`: (.*?)\n///\n", re.S)
 
 def obtain_playback(work, crate, harness, res):
     logfile = os.path.join(work, "logs", harness.name + ".playback.log")
-    rc, killed, wall, _ = run_cmd(kani_cmd(harness, res["tdir"], playback=True), crate, harness.timeout_thorough, logfile, mem_cap_mb=24576)
+    # no address-space limit here: building the counterexample trace needs far more virtual memory than the
+    # verification run itself (the resident-memory watchdog still applies)
+    rc, killed, wall, _ = run_cmd(kani_cmd(harness, res["tdir"], playback=True), crate, max(harness.timeout_thorough, 3600), logfile,
+                                  limit=False, mem_cap_mb=45056)
     if killed:
         res["playback_note"] = "playback run stopped: " + killed
     text = open(logfile, errors="replace").read()
@@ -302,7 +305,9 @@ def native_replay(work, harness, test_src, release=False):
         make_crate(work, stock=True)
     modfile = os.path.join(rcrate, "src", harness.module + ".rs")
     base = open(os.path.join(work, "crate", "src", harness.module + ".rs")).read()
-    open(modfile, "w").write(base + "\n" + test_src + "\n")
+    # Kani's doc comment repeats the failed check's message; a multi-line message breaks the comment
+    code = test_src[test_src.index("#[test]"):] if "#[test]" in test_src else test_src
+    open(modfile, "w").write(base + "\n" + code + "\n")
     tname = re.search(r"fn (kani_concrete_playback_\w+)\(", test_src).group(1)
     env = dict(ENV, CARGO_TARGET_DIR=os.path.join(work, "rt"), RUST_BACKTRACE="0")
     logfile = os.path.join(work, "logs", harness.name + (".replay_release.log" if release else ".replay.log"))
@@ -456,6 +461,23 @@ def check_property(prop, tier, only=None, keep=False, jobs=None):
             # failed: counterexample(s) - one per failed CBMC property
             descs = sorted({f["description"] for f in r["failed_checks"]})
             tests = obtain_playback(work, crate, h, r)
+            if not tests and h.fallback_inputs:
+                # the solver has a counterexample but its assignment could not be extracted: try the registered
+                # candidate inputs natively; a candidate that fails on the real build confirms the violation
+                tests = {}
+                for ci, cand in enumerate(h.fallback_inputs):
+                    body = ",\n".join("        vec!%s" % json.dumps(list(v)) for v in cand)
+                    src = ("/// fallback candidate %d for harness `%s::%s` (solver assignment unavailable: %s)\n#[test]\n"
+                           "fn kani_concrete_playback_%s_fallback%d() {\n    let concrete_vals: Vec<Vec<u8>> = vec![\n%s\n    ];\n"
+                           "    kani::concrete_playback_run(concrete_vals, %s);\n}\n" % (ci, h.module, h.name, r.get("playback_note", "no test printed"), h.name, ci, body, h.name))
+                    rep, msg, _ = native_replay(work, h, src)
+                    if rep:
+                        for d in descs:
+                            if d in msg or not d.startswith("C"):
+                                tests.setdefault(d, src)
+                        if tests:
+                            notes.append("solver assignment unavailable for %s; confirmed natively with fallback candidate %d" % (h.name, ci))
+                            break
             if not tests:
                 inconclusive.append("%s: counterexample for %s but no concrete playback could be produced (%s)" % (h.name, descs, r.get("playback_note", "no playback test in the output")))
                 continue
